@@ -906,7 +906,7 @@ impl MdkSqliteStorage {
         // This is critical because the groups table has ON DELETE CASCADE to
         // group_state_snapshots - if we delete the group first, the snapshot
         // rows get deleted too!
-        let snapshot_rows: Vec<(String, Vec<u8>, Vec<u8>)> = {
+        let mut snapshot_rows: Vec<(String, Vec<u8>, Vec<u8>)> = {
             let mut stmt = conn
                 .prepare(
                     "SELECT table_name, row_key, row_data FROM group_state_snapshots
@@ -923,6 +923,15 @@ impl MdkSqliteStorage {
             rows.collect::<Result<Vec<_>, _>>()
                 .map_err(|e| Error::Database(e.to_string()))?
         };
+        // Own leaf nodes are an ordered list (read back ORDER BY id). Their row key is the
+        // JSON text of the former row id, which sorts "10" < "9": re-insert in numeric order.
+        snapshot_rows.sort_by_key(|(table, row_key, _)| {
+            if table == "openmls_own_leaf_nodes" {
+                serde_json::from_slice::<i64>(row_key).unwrap_or(0)
+            } else {
+                0
+            }
+        });
 
         // Also read OTHER snapshots for this group (different names) so we can
         // restore them after the CASCADE deletion. This preserves multiple snapshots.
